@@ -1358,6 +1358,13 @@ class Printer:
             return '(%s ? %s : %s)' % (self.sz_e(I[0]), self.sz_e(I[1]), self.sz_e(I[2]))
         if k == 'CallExpr' and I:
             f_ = self.callee_decl(I[0])
+            fname_ = f_.get('name') or f_.get('referencedDecl', {}).get('name')
+            if len(I) >= 2 and self.unit.get('sz_witness'):
+                # free function over a witness container: contains(X.member, e) -> entry `<member>.contains` of the witness map
+                wk = self.sz_wkey(I[1], fname_)
+                if wk:
+                    self.fire('sz:witness-free-call')
+                    return '(%s)' % self.sz_wfill(self.unit['sz_witness'][wk], I[2:])
             if (f_.get('name') or f_.get('referencedDecl', {}).get('name')) == 'ToFile' and len(I) == 5:
                 # NiVersion::ToFile(a, b, c, d) with literal arguments: the packed version number (constexpr in the source)
                 vals = []
@@ -1514,8 +1521,13 @@ class Printer:
                 # loop abstraction by an INDUCTIVE INVARIANT: it holds on entry (asserted); an arbitrary state satisfying it, followed by
                 # one iteration, satisfies it again (asserted); after the loop: the entry state (no iteration) or such a state
                 for hv_ in self.unit.get('sz_loop_havoc', []):
-                    nm_, ct_ = hv_.split(':')
-                    if re.search(r'\b%s\b' % re.escape(nm_), btxt) or any(c_ in btxt for c_ in self.unit.get('sz_call_map', {}).values()):
+                    # name:type[:trigger|trigger...] -- the ghost is havocked (under the invariant) when the loop body mentions it,
+                    # one of its trigger macros, or a mapped call
+                    parts_ = hv_.split(':')
+                    nm_, ct_ = parts_[0], parts_[1]
+                    trig_ = parts_[2].split('|') if len(parts_) > 2 else []
+                    if re.search(r'\b%s\b' % re.escape(nm_), btxt) or any(re.search(r'\b%s\b' % re.escape(x_), btxt) for x_ in trig_) or \
+                            any(c_ in btxt for c_ in self.unit.get('sz_call_map', {}).values()):
                         hv += t + '\t' + self.sz_havoc(nm_, ct_) + '\n'
                 cnd = None
                 if k in ('ForStmt', 'WhileStmt'):
